@@ -183,6 +183,7 @@ pub fn run_case(line: &str) -> String {
         // ---- script ----
         let mut rcv: Option<Receiver> = Some(receiver);
         let mut recv_task: Option<JoinHandle<(Receiver, Result<Dlv, String>)>> = None;
+        let mut recv_cancel: Option<tokio::sync::oneshot::Sender<()>> = None;
         let mut held: Vec<Dlv> = Vec::new();
         for ev in &evs {
             let w: Vec<&str> = ev.split_whitespace().collect();
@@ -211,10 +212,28 @@ pub fn run_case(line: &str) -> String {
                 "recv" => {
                     if recv_task.is_none() {
                         if let Some(mut r) = rcv.take() {
+                            let (ctx, mut crx) = tokio::sync::oneshot::channel::<()>();
+                            recv_cancel = Some(ctx);
                             recv_task = Some(tokio::spawn(async move {
-                                let res = r.recv::<Body<Value>>().await.map_err(|e| err_name(&format!("{:?}", e)));
+                                // the recv future is dropped when the cancel signal arrives; the receiver survives
+                                let res = {
+                                    let fut = r.recv::<Body<Value>>();
+                                    tokio::pin!(fut);
+                                    tokio::select! {
+                                        biased;
+                                        _ = &mut crx => Err("CANCELLED".to_string()),
+                                        x = &mut fut => x.map_err(|e| err_name(&format!("{:?}", e))),
+                                    }
+                                };
                                 (r, res)
                             }));
+                        }
+                    }
+                }
+                "rcancel" => {
+                    if recv_task.is_some() {
+                        if let Some(c) = recv_cancel.take() {
+                            let _ = c.send(());
                         }
                     }
                 }
@@ -300,6 +319,7 @@ pub fn run_case(line: &str) -> String {
                                     ));
                                     held.push(d);
                                 }
+                                Err(e) if e == "CANCELLED" => {}
                                 Err(e) => obs.push(format!("recv=err:{}", e)),
                             }
                         }
@@ -346,6 +366,7 @@ pub fn direct_oracle(line: &str, trace: &str) -> Vec<String> {
     let mut dc_spec: u32 = idc; // last learnt from the sender, advanced by the deliveries that have arrived completely since
     let mut received_ok: Vec<(u32, usize)> = Vec::new();
     let mut settled_after_recv: Vec<u32> = Vec::new();
+    let mut settled_early: Vec<u32> = Vec::new();
     let mut budget: Option<i64> = None; // deliveries still allowed since the last flow we wrote
     let first_tokens: Vec<&str> = steps.first().map(|s| s.split_whitespace().next().unwrap_or("").split(',').collect()).unwrap_or_default();
     for t in first_tokens {
@@ -383,6 +404,20 @@ pub fn direct_oracle(line: &str, trace: &str) -> Vec<String> {
                 for (d, _) in &received_ok {
                     if f <= *d && *d <= l && second_of.get(d).cloned().unwrap_or(link_second) {
                         settled_after_recv.push(*d);
+                    }
+                }
+                // ids settled by the sender before the application has taken the delivery (the disposition overtakes the queued transfer)
+                let mut d = f;
+                while d <= l {
+                    if !received_ok.iter().any(|(x, _)| *x == d) {
+                        settled_early.push(d);
+                    }
+                    if d == u32::MAX {
+                        break;
+                    }
+                    d += 1;
+                    if d.wrapping_sub(f) > 64 {
+                        break;
                     }
                 }
             }
@@ -462,12 +497,37 @@ pub fn direct_oracle(line: &str, trace: &str) -> Vec<String> {
             }
         }
     }
+    // C16/C01: with cancellations anywhere, what the completed recv() calls return is a prefix of what was sent completely, in order
+    if !faulty {
+        let mut sent_complete: Vec<u32> = Vec::new();
+        let mut cur: Option<u32> = None;
+        for e in &evs {
+            if e[0] == "t" {
+                let w: Vec<&str> = e.iter().map(|x| x.as_str()).collect();
+                if cur.is_none() {
+                    cur = opt_u32(field(&w, "did"));
+                }
+                if field(&w, "ab") == "1" {
+                    cur = None;
+                } else if field(&w, "more") == "0" {
+                    if let Some(d) = cur.take() {
+                        sent_complete.push(d);
+                    }
+                }
+            }
+        }
+        let got: Vec<u32> = received_ok.iter().map(|(d, _)| *d).collect();
+        if got.len() > sent_complete.len() || got[..] != sent_complete[..got.len()] {
+            v.push(format!("c16-recv-lost-or-duplicated: recv() returned deliveries {:?} but {:?} were sent", got, sent_complete));
+        }
+    }
     // C02: a mode-second delivery the sender settled after we had taken it is no longer unsettled
     if let Some(u) = fin.split("unsettled=[").nth(1) {
         let tags: Vec<u32> = u.trim_end_matches(|c| c == ']' || c == ' ').split(',').filter_map(|x| x.parse().ok()).collect();
         for d in settled_after_recv {
             if tags.contains(&d) && !faulty {
-                v.push(format!("c02-receiver-retained: delivery {} is still in the receiver's unsettled map after the sender settled it", d));
+                let class = if settled_early.contains(&d) { "c02-receiver-retained-overtaken" } else { "c02-receiver-retained" };
+                v.push(format!("{}: delivery {} is still in the receiver's unsettled map after the sender settled it", class, d));
             }
         }
     }
@@ -580,7 +640,8 @@ pub fn gen_case(r: &mut Rng, thorough: bool) -> String {
                 did = did.wrapping_add(1);
                 dc_peer = dc_peer.wrapping_add(1);
             }
-            8..=11 => evs.push("recv".into()),
+            8..=10 => evs.push("recv".into()),
+            11 => evs.push(if r.below(2) == 0 { "rcancel".into() } else { "recv".into() }),
             12 => evs.push(format!("cred {}", r.below(6))),
             13 => evs.push("drain".into()),
             14 => {
